@@ -99,7 +99,7 @@ fn apply(p: &Prog, e: &Edit) -> (Prog, Vec<(usize, Fate)>, Vec<usize>) {
                         true
                     }
                 }
-                Shape::Distinct { .. } => false,
+                Shape::Distinct { .. } | Shape::JoinDerived { .. } => false,
             };
             if changed && q.streams[i] != p.streams[i] {
                 fates[i].1 = Fate::Changed;
@@ -119,8 +119,8 @@ fn apply(p: &Prog, e: &Edit) -> (Prog, Vec<(usize, Fate)>, Vec<usize>) {
             // remove i and all streams (transitively) derived from it
             let mut dead: BTreeSet<usize> = [i].into_iter().collect();
             for j in 0..n {
-                if let Some(Src::Stream(k)) = p.streams[j].src() {
-                    if dead.contains(k) {
+                if let Some(k) = p.streams[j].upstream() {
+                    if dead.contains(&k) {
                         dead.insert(j);
                     }
                 }
@@ -140,6 +140,7 @@ fn apply(p: &Prog, e: &Edit) -> (Prog, Vec<(usize, Fate)>, Vec<usize>) {
                         *src = Src::Ty("A".into());
                     }
                 }
+                Shape::JoinDerived { .. } => s = Shape::Filter { src: Src::Ty("A".into()), cond: None, emit: Emit::Pass },
                 _ => {}
             }
             q.streams.push(s);
@@ -173,8 +174,8 @@ fn run(c: &Case) -> Outcome {
     // streams downstream of a changed/removed stream are "affected": not judged
     let mut affected: BTreeSet<usize> = fates.iter().filter(|(_, f)| *f == Fate::Changed).map(|(i, _)| *i).collect();
     for j in 0..c.prog.streams.len() {
-        if let Some(Src::Stream(k)) = c.prog.streams[j].src() {
-            if affected.contains(k) {
+        if let Some(k) = c.prog.streams[j].upstream() {
+            if affected.contains(&k) {
                 affected.insert(j);
             }
         }
@@ -257,7 +258,7 @@ fn run(c: &Case) -> Outcome {
                     }
                 }
                 Fate::Changed | Fate::Added => {
-                    let derived = matches!(q.streams[qi].src(), Some(Src::Stream(_)));
+                    let derived = q.streams[qi].upstream().is_some();
                     if derived {
                         continue;
                     }
